@@ -39,7 +39,12 @@ fn check(case: &SubCase, run: &mut Run) -> Result<(), (Vec<u8>, String)> {
             run.count("derive_panicked(C19 business)", 1);
             return Ok(());
         }
-        if !d.errors.iter().any(|m| m.contains("not found")) {
+        if case.reject_kind == 1 {
+            if d.errors.is_empty() {
+                let bad = def.subpatterns.iter().map(|s| s.lit.text.clone()).collect::<Vec<_>>();
+                return Err((vec![], format!("a subpattern source that is no regex on its own (one of {bad:?}) is accepted: wrapped in a group it parses, and its alternation / groups leak into the referencing pattern")));
+            }
+        } else if !d.errors.iter().any(|m| m.contains("not found")) {
             return Err((vec![], format!("undefined or forward subpattern reference accepted (diagnostics: {:?})", d.errors)));
         }
         run.nontrivial(fnv(d.rust.as_bytes()));
@@ -108,7 +113,7 @@ pub fn main(args: &Args) -> i32 {
     if let Some(path) = &args.replay {
         let v: serde_json::Value = serde_json::from_str(&std::fs::read_to_string(path).unwrap()).unwrap();
         let def: DefSpec = serde_json::from_value(v["def"].clone()).unwrap();
-        let case = SubCase { def, must_reject: v["must_reject"].as_bool().unwrap_or(false), max_ref_depth: 0 };
+        let case = SubCase { def, must_reject: v["must_reject"].as_bool().unwrap_or(false), max_ref_depth: 0, reject_kind: v["reject_kind"].as_u64().unwrap_or(0) as u8 };
         let input = unhex(v["input_hex"].as_str().unwrap_or(""));
         let mut scratch = Run::new("C11", "quick", 0, "");
         let mut bad = check(&case, &mut scratch).err().map(|e| e.1);
@@ -137,7 +142,7 @@ pub fn main(args: &Args) -> i32 {
             let mut scratch = Run::new("C11", "quick", 0, "");
             let (input, msg) = check(&case, &mut scratch).err().unwrap_or_default();
             run.violations = 1;
-            report_violation("C11", &args.replay_dir, &json!({"property": "C11", "tier": "G", "def": case.def, "must_reject": case.must_reject, "rendered_rust": model::prep::render(&case.def), "input_hex": hex(&input), "input": show(&input), "findings": [{"property": "C11", "what": msg}]}));
+            report_violation("C11", &args.replay_dir, &json!({"property": "C11", "tier": "G", "def": case.def, "must_reject": case.must_reject, "reject_kind": case.reject_kind, "rendered_rust": model::prep::render(&case.def), "input_hex": hex(&input), "input": show(&input), "findings": [{"property": "C11", "what": msg}]}));
             1
         }
         DriveResult::Abort(m) => {
